@@ -12,7 +12,7 @@ META = dict(
               "outstanding); server level: l2cap_output / Handle Value Confirmation over the queue, theorems by case analysis "
               "and a termination measure (pending requests); monitor with a bounded-liveness clause (slack counter); tie: "
               "random interleavings of indicate / notify / poll / confirm / CCCD writes on 3 connections",
-    level_note="see docs/C11.md")
+    level_note="proved: one indication at a time along any history; bad confirmations rejected; NEVER LOST as bounded progress (C11_never_lost: a pending indication is dequeued within 2*qsize confirm/poll rounds in every reachable state, and transmitted when subscribed); TRACE LEVEL: monitor safety clauses accept every fault-free model trace (C11_monitor_core_accepts_model). NOT proved: trace level soundness of the slack-counter clauses (C11_monitor_accepts_model_full, Definition). See docs/C11.md")
 
 
 class C11(AttBase):
